@@ -99,7 +99,15 @@ def run(ctx):
                 "paths; schedules themselves are not explored.")
     ctx.assume("the interleaving argument (a request before the reset is followed by the rebuild, one after it leaves "
                "the flag set) is a paper argument over the checked facts")
-    prog = ctx.prog
+    # acquire_env, request_reload and the watcher callback are read through the private helpers of the crate that parts
+    # of them may have been moved into (`refresh_env(&mut slot)`).  Functions that write the flag themselves stay calls:
+    # the rules below find them by that write (resetters, setters) and reason about their call sites.
+    from .. import inline
+    base = ctx.prog
+    flaggers = {f.path for f, _, _ in flag_writes(base)}
+    anchors = [ACQ, REQ, SHOULD] + [k for k, f_ in base.fns.items() if f_.crate == "minijinja_autoreload" and "with_fs_watcher" in k]
+    prog = inline.Overlay(base, anchors, keep=lambda t: not t.startswith("minijinja_autoreload::") or t in flaggers or t in (
+        "minijinja_autoreload::Notifier::handle", SHOULD, REQ, ACQ, "minijinja_autoreload::Notifier::fast_reload"))
     acq = prog.fn(ACQ)
 
     writes = flag_writes(prog)
@@ -306,6 +314,14 @@ def run(ctx):
     # A5: both request entry points set the flag whenever the notifier is alive
     req = prog.fn(REQ)
     req_sets = [bb for f, bb in sets if f.path == REQ]
+    # ... or through a function of the crate that sets the flag on every path through it (`signal_reload(&handle)`)
+    sure_setters = set()
+    for g_path in {f.path for f, _ in sets}:
+        g_ = prog.fn(g_path)
+        ws_ = [bb for f, bb in sets if f.path == g_path]
+        if g_path not in (REQ,) and cfg.paths_must_pass(g_, 0, ws_, g_.returns()):
+            sure_setters.add(g_path)
+    req_sets += [c.bb for c in req.calls() if c.name in sure_setters]
     ctx.ob("C20.A5.request-sets-flag", REQ, bool(req_sets), "request_reload no longer sets should_reload", req.loc)
     if req_sets:
         # every path from the Some arm of handle() to a return passes the write
@@ -321,6 +337,7 @@ def run(ctx):
         ctx.ob("C20.A5.request-sets-flag-on-all-paths", REQ, ok,
                "a path through request_reload with a live notifier skips the flag write", req.loc)
     fs_sets = [(f, bb) for f, bb in sets if "with_fs_watcher" in f.path]
+    fs_sets += [(g_, c.bb) for k_, g_ in prog.fns.items() if "with_fs_watcher" in k_ for c in g_.calls() if c.name in sure_setters]
     if any("with_fs_watcher" in k for k in prog.fns):
         ctx.ob("C20.A5.fs-callback-sets-flag", "with_fs_watcher", bool(fs_sets),
                "the file-watcher callback no longer sets should_reload", "")
